@@ -30,6 +30,13 @@ NOTES = """Interpretation choices (read generously, see BUILDING.md rule 1):
   raw spaces / raw non-ASCII in Targets are legal IRIs but are NOT generated (conversion rules are intricate).
   Per declared part an undeclared decoy may carry the name a WRONG reading denotes (decoded once more, not decoded
   at all, '+' as space); it must never be shown.
+* the declaration chain: an EPUB container may list 1-3 <rootfile> entries. The publication is the FIRST one whose
+  media-type is application/oebps-package+xml (OCF 3.3 4.2.6.3.1 "the first rootfile element ... is the Default
+  Rendition"; in OCF 2.0.1 entries of other media types are other formats of the book and are skipped). Further
+  package documents (same directory or container root; reversed spine; another part set incl. a part only they
+  declare) must not influence order, count or content. OOXML: the officeDocument relationship may be the last one
+  of /_rels/.rels and workbook.xml.rels / presentation.xml.rels may list styles, theme, masters before the parts.
+  [Content_Types] Override-vs-Default variants are not generated.
 * references may contain "./" (and for EPUB "../") segments: resolved as RFC 3986 5.2.4 says, relative and absolute.
 * OPC relationship targets are tried relative to the source part ('worksheets/sheet1.xml') and absolute
   ('/xl/worksheets/sheet1.xml'); '..' segments are generated only for EPUB. Speaker notes, slide masters and
@@ -39,13 +46,13 @@ NOTES = """Interpretation choices (read generously, see BUILDING.md rule 1):
 EVIDENCE = dict(
     level="model_checking",
     rule="cases = every package PartsOrderMC.tla builds from K parts (K=3 quick, 4 thorough) x three independent permutations "
-         "(declared order, relationship/manifest listing order, archive order; file-name order = part number) x 59 layout profiles "
+         "(declared order, relationship/manifest listing order, archive order; file-name order = part number) x 69 layout profiles "
          "(XLSX, PPTX, EPUB 2/3; nested / renamed / ../ paths; absolute targets; %20, '+', %2B; decoys; optional parts; one declared part "
          "absent from the archive, with other parts or decoys under the conventional sheet<k>/slide<k> names; member names with space, '+', "
          "'%20', lone '%', e-acute, parentheses, '&' in their encoded / raw spellings with decoys named like the doubly decoded, undecoded "
-         "or form-decoded reading; './' segments) plus -simulate "
+         "or form-decoded reading; './' segments; EPUB containers with 1-3 rootfiles, OOXML relationship order) plus -simulate "
          "packages over the full option product; TLC proves DeclaredOrder for the declared/path reader and refutes the file-name, archive, "
-         "query-decoding, twice-decoding and conventional-name-fallback readers. Each package is rendered by an independent writer and opened through tabula.Open (PageCount, Text, "
+         "query-decoding, twice-decoding, last-rootfile and conventional-name-fallback readers. Each package is rendered by an independent writer and opened through tabula.Open (PageCount, Text, "
          "ToMarkdown, Document) and the format reader; random packages of up to 10 parts are validated by PartsOrderTrace.tla. "
          "Non-trivial = declared order differs from file-name order; distinct by case text.",
     assumptions=["a reader that refuses a package with an absent declared part is not judged (only silent substitution / miscounting is)",
@@ -65,7 +72,7 @@ def _selftest(ctx, cases):
             elif info["fmt"] == "pptx":
                 audit.audit_pptx(info["path"], info["members"], declared=[(x[0], x[1]) for x in d], absent=ab)
             else:
-                audit.audit_epub(info["path"], info["members"], declared=[(x[0], x[1]) for x in d], absent=ab)
+                audit.audit_epub(info["path"], info["members"], declared=[(x[0], x[1]) for x in d], absent=ab, nroots=info.get("nroots"))
             # the parts appear in the archive in exactly the order the case asked for
             pos = [info["members"].index(n) for n in info["ziporder"]]
             if pos != sorted(pos):
@@ -194,6 +201,7 @@ def run(ctx):
     ctx.tlc("PartsOrderMC", "PartsOrder_mc_impl_query.cfg", expect_violation=True)
     ctx.tlc("PartsOrderMC", "PartsOrder_mc_impl_convention.cfg", expect_violation=True)
     ctx.tlc("PartsOrderMC", "PartsOrder_mc_impl_twice.cfg", expect_violation=True)
+    ctx.tlc("PartsOrderMC", "PartsOrder_mc_impl_lastroot.cfg", expect_violation=True)
     ctx.exhaustive = True
     # ---- R2 -------------------------------------------------------------------
     sim = ctx.tlc("PartsOrderMC", "PartsOrder_sim.cfg", workers=1, simulate=400 if q else 20000, depth=6,
@@ -210,7 +218,8 @@ def run(ctx):
     ctx.extra["packages_simulated"] = len(cases) - len(gen["cases"])
     ng = len(gen["cases"])
     miss = [c for c in cases if c["prof"]["missing"] > 0]
-    picks = [miss[0], miss[len(miss) // 2], miss[-1], cases[0], cases[ng // 5], cases[2 * ng // 5], cases[3 * ng // 5], cases[4 * ng // 5], cases[ng - 1], cases[-1], cases[-2], cases[-3]]
+    chains = [c for c in cases if c["prof"]["chain"] != "one"]
+    picks = [chains[0], chains[len(chains) // 3], chains[2 * len(chains) // 3], chains[-1], miss[0], miss[len(miss) // 2], miss[-1], cases[0], cases[ng // 5], cases[2 * ng // 5], cases[3 * ng // 5], cases[4 * ng // 5], cases[ng - 1], cases[-1], cases[-2], cases[-3]]
     _selftest(ctx, picks)
     for c in (cases[ng // 3], cases[-1]):
         ctx.sample({"fmt": c["fmt"], "profile": c["prof"], "parts": [{"id": p["id"], "decl": p["decl"], "rel": p["rel"], "zip": p["zip"],
